@@ -11,7 +11,7 @@ from . import eqcommon as E
 PROP = "C05"
 RULE = ("list(vf2pp_all_isomorphisms(g1, g2, atom_labels, stereo, stereo_change)) for all ordered pairs of bounded universes "
         "(all labelled MolGraphs n<=3, labelled n=4 x representatives [thorough: all], stereo stars / two-unit graphs with stereo in "
-        "{False, True}, stereo reaction graphs with stereo_change=True, second graph under other identifiers), label modes (incl. caller labels -1 / -2, whose hashes coincide), flags also given as numpy.bool_ / 1 "
+        "{False, True}, stereo reaction graphs with stereo_change=True incl. several changes of one kind meeting at one atom, second graph under other identifiers), label modes (incl. caller labels -1 / -2, whose hashes coincide), flags also given as numpy.bool_ / 1 "
         "{default, element dict, all-equal, degree, mismatching}, symmetric graphs up to 14 atoms against themselves and a "
         "relabelled copy; topological_symmetry_number of every fully specified stereo graph.  Oracle: the set of valid bijections "
         "found by brute-force backtracking with the same labels: every yielded mapping valid, none missing, none twice.  "
